@@ -39,6 +39,13 @@ DIRECTED = [
     tuple(I(8) for _ in range(8)),
     (I(7), I(9), I(13), I(3), U(1), I(31)),
     (en(3, "c"), U(5), en(2, "d"), I(6), F32, U(16)),
+    # widths next to the carrier sizes
+    (I(63), U(1)),
+    (U(1), I(63)),
+    (I(31), U(33)),
+    (I(17), U(47)),
+    (U(63),),
+    (I(9), I(7), I(15)),
     # enum whose NAME starts like a signed type
     (("en", (("zi", 0), ("mi", 5)), "imode"), U(5)),
     (U(3), ("en", (("zj", 0), ("mj", 3)), "i8mode"), ("en", (("zk", 0), ("mk", 7)), "unit_state")),
@@ -59,6 +66,14 @@ def build_space(tier):
     for c in DIRECTED:
         transitions += 1
         combos.append(c)
+    if tier != "quick":
+        # every width 1..64, signed and unsigned, alone and behind a one-bit signal
+        for w in range(1, 65):
+            for t in (U(w), I(w)):
+                for c in ((t,), (U(1), t)):
+                    transitions += 1
+                    if total_width(c) <= 64 and c not in combos:
+                        combos.append(c)
     return combos, transitions
 
 
